@@ -16,45 +16,30 @@ Lemma unique_children_run : forall ops, unique_children (run ops).
 Proof. intros. apply (i_child _ (run_inv ops)). Qed.
 Lemma unique_wires_run : forall ops, unique_wires (run ops).
 Proof. intros. apply (i_wires _ (run_inv ops)). Qed.
+Lemma wires_registered_run : forall ops, all_registered (run ops).
+Proof. exact registered_run. Qed.
+Lemma sinks_exact_run : forall ops, sinks_exact (run ops).
+Proof. exact sinks_run. Qed.
 
 Lemma conflict_raises_run : forall ops o c,
-  valid_op (run ops) o -> subject_registered (run ops) o ->
-  conflict_of (run ops) o = Some c -> snd (step (run ops) o) = Raise c.
+  valid_op (run ops) o -> conflict_of (run ops) o = Some c -> snd (step (run ops) o) = Raise c.
 Proof. intros. apply conflict_raises; auto. apply run_inv. Qed.
 
+Lemma raise_unchanged_run : forall ops o s' c,
+  step (run ops) o = (s', Raise c) -> s' = run ops /\ names_existing (run ops) c.
+Proof.
+  intros ops o s' c H. split; [eapply raise_unchanged; eauto|].
+  eapply raise_names_existing; eauto. apply registered_run.
+Qed.
+
 Lemma earlier_stays_run : forall ops o,
+  valid_op (run ops) o ->
   children_stay (run ops) (exec (run ops) o) /\
   drivers_stay (run ops) (exec (run ops) o) /\
-  (subject_registered (run ops) o -> wires_stay (run ops) o (exec (run ops) o)).
+  wires_stay (run ops) o (exec (run ops) o).
 Proof.
-  intros. split; [apply children_stay_step | split; [apply drivers_stay_step | apply wires_stay_step]].
-Qed.
-
-Lemma raise_key_unchanged : forall s o s' p n, step s o = (s', Raise (CKey p n)) -> s' = s.
-Proof.
-  intros s o s' p n H.
-  assert (MV : forall w np nn, move s w np nn = (s', Raise (CKey p n)) -> s' = s).
-  { intros w np nn HM. unfold move in HM. destruct (negb _); [inversion HM|]. destruct (negb _); [inversion HM|].
-    destruct (negb _); [inversion HM; auto|]. cbn in HM. destruct (tmem _ _); inversion HM. }
-  destruct o as [[p0|] n0 prim|p0 n0 width|o n0 w|o n0 w|o n0 w|w n0|w p0|w p0 n0]; cbn [step] in H; eauto.
-  - unfold new_logic in H. destruct (negb _); [inversion H|]. destruct (tmem _ _); inversion H.
-  - inversion H.
-  - unfold new_wire in H. destruct (negb _); [inversion H|]. destruct (tmem _ _); inversion H.
-  - unfold add_port in H. destruct (negb _); [inversion H|]. destruct (_ && _ && _); inversion H.
-  - unfold add_port in H. destruct (negb _); [inversion H|]. destruct (_ && _ && _); inversion H.
-  - unfold add_port in H. destruct (negb _); [inversion H|]. destruct (_ && _ && _); inversion H.
-Qed.
-
-Lemma raise_keeps_run : forall ops o s' c,
-  step (run ops) o = (s', Raise c) -> kept (run ops) o s' c /\ (subject o = None -> s' = run ops).
-Proof.
-  intros ops o s' c H. split.
-  - destruct c; cbn.
-    + eapply raise_child_kept; eauto.
-    + eapply raise_wire_kept; eauto. apply run_inv.
-    + eapply raise_driver_kept; eauto.
-    + eapply raise_key_unchanged; eauto.
-  - eapply raise_unchanged; eauto.
+  intros ops o V. split; [apply children_stay_step | split; [apply drivers_stay_step | apply wires_stay_step]].
+  apply subject_registered_all; auto. apply registered_run.
 Qed.
 
 Lemma driver_permanent_run : forall ops1 ops2 w q,
@@ -64,27 +49,7 @@ Lemma child_permanent_run : forall ops1 ops2 p n c,
   p < nobj (run ops1) -> tget (ochildren (run ops1) p) n = Some c -> tget (ochildren (run (ops1 ++ ops2)) p) n = Some c.
 Proof. intros. unfold run. rewrite run_from_app. now apply child_permanent. Qed.
 
-Lemma wires_registered_run : forall ops, moves_succeed init ops -> all_registered (run ops).
-Proof. intros. apply registered_run; auto using inv_init, registered_init. Qed.
-
-Lemma subject_registered_all : forall s o, all_registered s -> valid_op s o -> subject_registered s o.
-Proof.
-  intros s o A V. unfold subject_registered.
-  destruct o; cbn in *; auto; apply A; tauto.
-Qed.
-
-Lemma conflict_rule_clean_run : forall ops o,
-  moves_succeed init ops -> valid_op (run ops) o ->
-  (forall c, conflict_of (run ops) o = Some c -> snd (step (run ops) o) = Raise c) /\
-  wires_stay (run ops) o (exec (run ops) o).
-Proof.
-  intros ops o M V. pose proof (subject_registered_all _ _ (wires_registered_run ops M) V) as R. split.
-  - intros c Hc. apply conflict_raises_run; auto.
-  - now apply wires_stay_step.
-Qed.
-
 Lemma integrity_constructed : forall ops h,
-  (forall w sp, w < nwire (run ops) -> wsource (run ops) w = Some sp -> pkind (run ops) sp = POut) ->
   h < nobj (run ops) ->
   (checkIntegrity (run ops) h = IRaise <-> exists q, visited (run ops) h q /\ undriven (run ops) q) /\
   (checkIntegrity (run ops) h = IOk <-> forall q, visited (run ops) h q -> ~ undriven (run ops) q).
@@ -93,23 +58,21 @@ Proof. intros. apply integrity_clean; auto. apply run_inv. Qed.
 Lemma tree_ok_run : forall ops, tree_ok (run ops).
 Proof. intros. apply inv_tree_ok, run_inv. Qed.
 
-Lemma sinks_exact_run : forall ops, sinks_exact (run ops).
-Proof. exact sinks_run. Qed.
-
 (* the executable predicates evaluated on real states are the declarative ones *)
 Lemma checked_predicates_exact : forall s,
   (single_driver_b s = true <-> single_driver s) /\ (unique_children_b s = true <-> unique_children s) /\
-  (unique_wires_b s = true <-> unique_wires s) /\ (sinks_exact_b s = true <-> sinks_exact s).
+  (unique_wires_b s = true <-> unique_wires s) /\ (sinks_exact_b s = true <-> sinks_exact s) /\
+  (all_registered_b s = true <-> all_registered s).
 Proof.
   intros s. split; [apply single_driver_b_iff|]. split; [apply unique_children_b_iff|].
-  split; [apply unique_wires_b_iff | apply sinks_exact_b_iff].
+  split; [apply unique_wires_b_iff|]. split; [apply sinks_exact_b_iff | apply all_registered_b_iff].
 Qed.
 Lemma checked_frames_exact : forall s o s', unique_children s -> unique_wires s ->
   (children_stay_b s s' = true <-> children_stay s s') /\ (drivers_stay_b s s' = true <-> drivers_stay s s') /\
-  (wires_stay_b s o s' = true <-> wires_stay s o s') /\ (subject_registered_b s o = true <-> subject_registered s o).
+  (wires_stay_b s o s' = true <-> wires_stay s o s').
 Proof.
   intros s o s' [C1 _] [W1 _]. split; [apply children_stay_b_iff; auto|].
-  split; [apply drivers_stay_b_iff|]. split; [apply wires_stay_b_iff; auto | apply subject_registered_b_iff].
+  split; [apply drivers_stay_b_iff | apply wires_stay_b_iff; auto].
 Qed.
 Lemma checked_integrity_exact : forall s h, unique_children s -> h < nobj s ->
   (undriven_port_b s h = true <-> exists q, visited s h q /\ undriven s q).
